@@ -377,6 +377,46 @@ def cause_ok(ctx, f, an, bb, idx, s, var):
                 a1 = trace_local(an, t.args[1])
                 if a0.k == "call" and a0.a[0].target() == "Enr::<K>::id" and s.place.is_local() and a1 == s.place.local:
                     return True, ""
+        # comparisons with the literals: the rejection is taken when the value is NOT v4 (and, if the key is tested, when it IS id)
+        saw_v4 = False
+        saw_id_key = False
+        needs_key = False
+        for d, cond, allowed, alll in cons:
+            c0 = strip(cond)
+            neg = False
+            while c0.k == "unop" and c0.a[0] == "Not":
+                neg = not neg
+                c0 = strip(c0.a[1])
+            if not (c0.k == "call" and c0.a[0].name in ("eq", "ne") and len(c0.a[1]) == 2):
+                continue
+            true_edge = ("otherwise" in allowed or 1 in allowed) and 0 not in allowed
+            false_edge = allowed == {0}
+            holds = (true_edge and not neg) or (false_edge and neg)
+            fails = (false_edge and not neg) or (true_edge and neg)
+            equal = (c0.a[0].name == "eq" and holds) or (c0.a[0].name == "ne" and fails)
+            differ = (c0.a[0].name == "eq" and fails) or (c0.a[0].name == "ne" and holds)
+            lits = [strip(x).a[0] for x in c0.a[1] if strip(x).k == "const"]
+            if any(l in (b"v4", "v4") for l in lits):
+                if equal:
+                    return False, "taken when the value equals v4"
+                if differ:
+                    saw_v4 = True
+                    # whose value is compared? the record's own id entry, or a value the caller passed for some key
+                    other = [strip(x) for x in c0.a[1] if strip(x).k != "const"]
+                    own = any((x.k == "call" and x.a[0].target() in ("Enr::<K>::id", "Enr::<K>::get", "Enr::<K>::get_raw_rlp")) or (x.k == "field" and x.a[1] == "id") for o_ in other for x in o_.walk())
+                    if not own:
+                        needs_key = True
+            elif any(l in (b"id", "id") for l in lits):
+                if differ:
+                    return False, "taken for keys other than id"
+                if equal:
+                    saw_id_key = True
+        if saw_v4 and needs_key and not saw_id_key:
+            # inside the validator / decoder arm for `id` the key was dispatched on (not an eq call): accept a dispatch on the key
+            if not any(c_.k in ("discr", "call", "binop") and any(x.k == "const" and x.a[0] in (b"id", "id") for x in c_.walk()) for _, c_, _, _ in cons) and f.name not in ("check_spec_reserved_keys",) and ctx.facts.j.get("role_anchors", {}).get("validator") != f.path:
+                return False, "a caller-supplied value is compared with v4 whatever its key"
+        if saw_v4:
+            return True, ""
         for d, cond, allowed, alll in cons:
             txt = repr(cond)
             if ("v4" in txt) or ("id" in txt and "::id(" in txt):
